@@ -91,6 +91,19 @@ Definition traffic_key H secret (key_len : nat) := hkdf_expand_label H secret lb
 Definition traffic_iv H secret := hkdf_expand_label H secret lbl_iv [] 12.
 Definition traffic_sn_key H secret (key_len : nat) := hkdf_expand_label H secret lbl_sn [] key_len.
 
+(* key-update chain (RFC 8446 7.2, RFC 9147 8): application_traffic_secret_n by iteration from
+   application_traffic_secret_0; generation n protects the records of epoch 3+n with the keys of secret n *)
+Fixpoint traffic_secret_n (H : hashfn) (secret0 : bytes) (n : nat) : bytes :=
+  match n with
+  | O => secret0
+  | S k => next_traffic_secret H (traffic_secret_n H secret0 k)
+  end.
+Definition generation_keys (H : hashfn) (secret0 : bytes) (n key_len : nat) : list bytes :=
+  let s := traffic_secret_n H secret0 n in
+  [s; traffic_key H s key_len; traffic_iv H s; traffic_sn_key H s key_len].
+(* what an implementation does: it keeps (only) the current secret and steps it at every key update *)
+Definition key_update_step (H : hashfn) (cur : bytes) : bytes := next_traffic_secret H cur.
+
 (* RFC 8446 section 7.5:  TLS-Exporter(label, context_value, key_length) =
      HKDF-Expand-Label(Derive-Secret(exporter_master_secret, label, ""), "exporter",
                        Hash(context_value), key_length) *)
